@@ -46,4 +46,7 @@ pub open spec fn seq_len_fits_isize(s: Seq) -> bool {
         _ => true,
     }
 }
+// core.rs::to_key is verified in the `keys` unit; eval.rs::index only needs that it returns a key or an error
+#[verifier::external_body]
+pub fn to_key(obj: Obj) -> (r: NRes<ObjKey>) { unimplemented!() }
 } // verus!
